@@ -108,3 +108,14 @@ func (c *SRPClient) VerifyServerProof(m2 []byte) bool {
 	}
 	return d == 0
 }
+
+// SRPProof computes M1 = H(H(N) xor H(g) | H(I) | s | A | B | K) for arbitrary inputs (used to model
+// an adversary that guesses the session key).
+func SRPProof(salt, A, B, K []byte) []byte {
+	hn, hg := h512(SRPN.Bytes()), h512(SRPg.Bytes())
+	xor := make([]byte, len(hn))
+	for i := range hn {
+		xor[i] = hn[i] ^ hg[i]
+	}
+	return h512(xor, h512([]byte("Pair-Setup")), salt, A, B, K)
+}
